@@ -450,7 +450,7 @@ done:
 type capCase struct {
 	Name    string `json:"name"`
 	Payload string `json:"payload"` // index into payloads
-	Shape   string `json:"shape"`   // one, two, two-x2, allowed-failure, chain
+	Shape   string `json:"shape"`   // one, two, two-x2, allowed-failure, chain, failed-chain
 	Export  string `json:"export"`
 }
 
@@ -496,6 +496,11 @@ func runCapture(c capCase) string {
 	case "chain":
 		// command 2 prints the previous command's output through the .Output template variable
 		t.Commands = []string{"printf '%s' 'first out'", "printf '%s' '<{{.Output}}>'", "printf '%s' '[{{.Output}}]'"}
+		want = "first out" + "<first out>" + "[<first out>]"
+	case "failed-chain":
+		// the same hand-over when the producing command fails and the task allows failure
+		t.Commands = []string{"printf '%s' 'first out'; exit 3", "printf '%s' '<{{.Output}}>'; exit 4", "printf '%s' '[{{.Output}}]'"}
+		t.AllowFailure = true
 		want = "first out" + "<first out>" + "[<first out>]"
 	}
 	if err := r.Run(t); err != nil {
@@ -571,7 +576,7 @@ func captureUnit(res *common.Result) {
 	}
 	for _, n := range []string{"plain", "a.b", "build:all"} {
 		for _, p := range pls {
-			for _, sh := range []string{"one", "two", "two-x2", "allowed-failure", "chain"} {
+			for _, sh := range []string{"one", "two", "two-x2", "allowed-failure", "chain", "failed-chain"} {
 				for _, ex := range []string{"", "MYVAR"} {
 					if do(capCase{Name: n, Payload: p, Shape: sh, Export: ex}) {
 						return
